@@ -919,6 +919,37 @@ def gen_libdefault(rng, tables, n_real):
     return cases
 
 
+def gen_emptycli(rng, tables):
+    """a string option given on the command line with the EMPTY value (--org "", used to blank what a file or OFX Home supplies)
+    while lower-ranking places set it: the command line still wins, the value in effect is ''"""
+    conf = dict(tables["configurable"])
+    ohkeys = [k for k, _ in tables["ofxhome_keys"]]
+    cases = []
+    for o, ty in conf.items():
+        if ty != "TStr" or o not in STR_FLAGS or o == "clientuid":      # `--clientuid ""` asks for a random id (UuidAction), by design
+            continue
+        lower = ["user", "fi"] + (["oh"] if o in ohkeys else [])
+        for mask in range(1, 2 ** len(lower)):
+            bits = {lower[i] for i in range(len(lower)) if mask >> i & 1}
+            spec, ui, fi_, oh = {o: {}}, [], [], {}
+            if "user" in bits:
+                spec[o]["user"] = g_value(rng, o, ty); ui.append((o, spec[o]["user"]))
+            if "fi" in bits:
+                spec[o]["fi"] = g_value(rng, o, ty); fi_.append((o, spec[o]["fi"]))
+            if "oh" in bits:
+                id_ = str(rng.randrange(400, 460))
+                oh[id_] = {"url": g_url(rng), "org": g_name(rng), "fid": g_id(rng), "brokerid": g_name(rng)}
+                fi_.append(("ofxhome", id_)); spec.setdefault("ofxhome", {})["fi"] = id_
+            if o != "url":
+                fi_.append(("url", "https://fi.example.com/ofx")); spec.setdefault("url", {})["fi"] = "https://fi.example.com/ofx"
+            spec["__oh__"] = oh
+            cli = {o: "", "dryrun": True}
+            cases.append({"fi": base_fi("srv", fi_), "user": mk_file([("srv", ui)]) if ui else None, "oh": oh,
+                          "runs": [{"argv": argv_of("stmt", "srv", cli), "uuids": ["U-A", "U-B"]}],
+                          "_spec": spec, "_cli": [cli], "_server": "srv", "_opt": o, "_bits": sorted(bits), "_kind": "emptycli"})
+    return cases
+
+
 def recase(rng, name):
     """the same nickname in another letter case (None when it has no letters)"""
     for cand in (name.upper(), name.capitalize(), name.swapcase(), name.lower()):
@@ -1045,7 +1076,7 @@ def check_property(case, res, orc, fail):
                 fail("argparse:namespace-differs-from-command-line", "run %d: argv %r gave %r, meant %r" % (i, r["argv"], got, want), dict(rp, run=i))
     # 1. precedence on the first run (the files are as generated)
     spec = case.get("_spec")
-    if spec is not None and kind in ("sweep", "random", "casenick") and "eff" in runs[0]:
+    if spec is not None and kind in ("sweep", "random", "casenick", "emptycli") and "eff" in runs[0]:
         r, cli = runs[0], clis[0]
         exp = orc.expected_effective(spec, dict(cli, server=server))
         exp_url = exp["url"][0]
@@ -1181,6 +1212,7 @@ def run(rep, tier, rng):
     cases += gen_udefault(rng, tables)
     cases += gen_libdefault(rng, tables, None if thorough else 20)
     cases += gen_casenick(rng, tables, 200 if thorough else 12)
+    cases += gen_emptycli(rng, tables)
     cases += gen_wild(rng, tables, 3000 if thorough else 300)
     cases += gen_malformed(rng, tables, 3000 if thorough else 300)
     cases += gen_realfi(rng, tables, 400 if thorough else 40)
@@ -1191,7 +1223,7 @@ def run(rep, tier, rng):
     rep.extra["exhaustive_part"] = "source subsets: all 2^5 subsets of {command line, user section, FI db section, OFX Home, user [DEFAULT]} for each of the %d CONFIGURABLE options and 7 command-line-only ones" % len(tables["configurable"])
     rep.rule = ("corpus first; sweep: every option x all 32 subsets of the five places a value can come from, distinct values per place; persist: every CONFIGURABLE option x values of its domain "
                 "(URLs over all URL-legal characters incl. %, account lists of 1..20 ids, integers, flags) written with --write and re-read by a second run; random: 1..5 runs on one file with "
-                "several options from random places; reset / list-quoting / [DEFAULT] probes (known findings); libdefault: nicknames whose FI section (bundled fi.cfg and generated) disagrees with a built-in default, the command line gives the built-in default or the FI value, --write, then a run without it; casenick: nicknames differing only in letter case from a section of the generated / bundled FI database or of the user's file (precedence among decoy sections, and write-then-rerun); wild: out-of-domain values and nicknames (DEFAULT, URL as nickname, blanks, quotes, newlines); "
+                "several options from random places; reset / list-quoting / [DEFAULT] probes (known findings); libdefault: nicknames whose FI section (bundled fi.cfg and generated) disagrees with a built-in default, the command line gives the built-in default or the FI value, --write, then a run without it; emptycli: every string option given as '' on the command line while user file / FI database / OFX Home set it; casenick: nicknames differing only in letter case from a section of the generated / bundled FI database or of the user's file (precedence among decoy sections, and write-then-rerun); wild: out-of-domain values and nicknames (DEFAULT, URL as nickname, blanks, quotes, newlines); "
                 "malformed: damaged user / FI files; realfi: nicknames of the bundled fi.cfg. Each run = fresh module state, real argparse, merge_config, write_config when --write. "
                 "non-trivial = every run of the case produced a merged mapping; distinct by full case content")
 
